@@ -54,6 +54,9 @@ pub struct Exec {
     /// a set_time call fell on the edge of the 0.05 s dead band: the statement leaves open which time is in effect
     t_unknown: bool,
     t_eff: Option<f32>,
+    /// other times that may be in effect instead of `t_eff`: a request inside the 0.05 s band *may* be ignored (the
+    /// statement only promises that requests outside it are honoured), so after one the time in effect is one of several
+    t_alt: Vec<f32>,
     gain_max: f64,
     max_abs_x: f64,
     hull_lo: f64,
@@ -75,8 +78,20 @@ struct Landmark {
     y0: f64,
     x: f64,
     n: u64,
+    /// one entry per time that may be in effect
+    hyp: Vec<LmHyp>,
+}
+
+struct LmHyp {
     n1: u64,
     n2: u64,
+    /// coverage one sample before t/10 (the statement's instant falls between samples)
+    c_before: f64,
+    /// Some(false) once this reading has failed one of its two landmarks
+    ok1: Option<bool>,
+    ok2: Option<bool>,
+    c1: f64,
+    c2: f64,
 }
 
 impl Exec {
@@ -98,6 +113,24 @@ impl Exec {
     }
     fn is_fast(&self) -> bool {
         self.n_eff() < 2.0
+    }
+    /// every time that may be in effect (empty before the first request)
+    fn hyps(&self) -> Vec<f32> {
+        let mut v = Vec::new();
+        if let Some(t) = self.t_eff {
+            v.push(t);
+            v.extend_from_slice(&self.t_alt);
+        }
+        v
+    }
+    fn n_of(&self, t: f32) -> f64 {
+        (t.min(10.0).max(0.0) as f64) * self.fs as f64
+    }
+    fn n_max(&self) -> f64 {
+        self.hyps().iter().map(|t| self.n_of(*t)).fold(0.0, f64::max)
+    }
+    fn all_fast(&self) -> bool {
+        self.hyps().iter().all(|t| self.n_of(*t) < 2.0)
     }
     /// 1/(1-p) of the ideal one-pole for a time setting (1 for settings faster than 4 samples)
     fn gain_for(&self, t: f32) -> f64 {
@@ -127,20 +160,7 @@ impl Exec {
         let y = real!(self.a.process(x));
         ctx.steps += 1;
         self.samples += 1;
-        if self.twins_ok {
-            let yb = real!(self.b.process(x));
-            let yc = real!(self.c.process(x));
-            ctx.probe(P_TWIN_SAMPLES);
-            ctx.check(14, "dead_band_twin", y.to_bits() == yb.to_bits(), || {
-                format!(
-                    "output {:e} differs from the twin that only received the set_time calls the 0.05 s rule honours ({:e})",
-                    y, yb
-                )
-            });
-            ctx.check(14, "above_10s_twin", y.to_bits() == yc.to_bits(), || {
-                format!("output {:e} differs from the twin that received min(t, 10 s) instead of t ({:e})", y, yc)
-            });
-        }
+        let twins = if self.twins_ok { Some((real!(self.b.process(x)), real!(self.c.process(x)))) } else { None };
         let x64 = x as f64;
         let y64 = y as f64;
         let changed = self.x_cur.map(|c| c.to_bits() != x.to_bits()).unwrap_or(true);
@@ -161,6 +181,20 @@ impl Exec {
             }
         }
         let tol = self.tol();
+        if let Some((yb, yc)) = twins {
+            // "behaves like": equal up to the f32 resolution of the filter (two code paths, or a coefficient set twice,
+            // may differ in the last bits), not bit for bit
+            ctx.probe(P_TWIN_SAMPLES);
+            ctx.check(14, "dead_band_twin", (y as f64 - yb as f64).abs() <= tol, || {
+                format!(
+                    "output {:e} differs from the twin that received exactly the set_time calls the 0.05 s rule obliges to honour ({:e})",
+                    y, yb
+                )
+            });
+            ctx.check(14, "above_10s_twin", (y as f64 - yc as f64).abs() <= tol, || {
+                format!("output {:e} differs from the twin that received min(t, 10 s) instead of t ({:e})", y, yc)
+            });
+        }
         // ---------------- C13: stays inside the hull of 0 and the inputs seen so far
         ctx.check(13, "inside_input_hull", y64 >= self.hull_lo - tol && y64 <= self.hull_hi + tol, || {
             format!(
@@ -175,15 +209,21 @@ impl Exec {
             }
             // ---------------- C14 landmarks: a step after a settled hold
             self.lm = None;
-            if self.settled && !self.is_fast() && !self.t_unknown && self.t_eff.is_some() {
-                let n = self.n_eff();
-                if n >= 100.0 {
-                    let y0 = self.y_last as f64;
-                    let step = x64 - y0;
-                    if step.abs() > 0.0 && tol / step.abs() <= 0.02 {
-                        self.lm =
-                            Some(Landmark { y0, x: x64, n: 0, n1: (n / 10.0).round() as u64, n2: n.round() as u64 });
-                    }
+            let hy = self.hyps();
+            if self.settled && !self.t_unknown && !hy.is_empty() && hy.iter().all(|t| self.n_of(*t) >= 100.0) {
+                let y0 = self.y_last as f64;
+                let step = x64 - y0;
+                if step.abs() > 0.0 && tol / step.abs() <= 0.02 {
+                    // "t/10 seconds later" and "t seconds later" fall between two samples: the 40..55 % landmark is
+                    // judged over the samples on either side of t/10, the 99.5 % landmark on the first sample at or after t
+                    let hyp = hy
+                        .iter()
+                        .map(|t| {
+                            let n = self.n_of(*t);
+                            LmHyp { n1: (n / 10.0).round() as u64, n2: n.ceil() as u64 + 1, c_before: 0.0, ok1: None, ok2: None, c1: 0.0, c2: 0.0 }
+                        })
+                        .collect();
+                    self.lm = Some(Landmark { y0, x: x64, n: 0, hyp });
                 }
             }
             self.hold_n = 1;
@@ -205,28 +245,63 @@ impl Exec {
                 });
             }
         }
+        let mut lm_done = false;
         if let Some(lm) = self.lm.as_mut() {
             lm.n += 1;
             let c = (y64 - lm.y0) / (lm.x - lm.y0);
             let slack = tol / (lm.x - lm.y0).abs();
-            if lm.n == lm.n1 {
-                ctx.probe(P_LANDMARK_T10);
-                let (n1, y0, xx) = (lm.n1, lm.y0, lm.x);
-                ctx.check(14, "covers_40_to_55_percent_after_t_over_10", c >= 0.40 - slack && c <= 0.55 + slack, || {
-                    format!("step {:e} -> {:e}: after t/10 = {} samples the output covered {:.4} of the step", y0, xx, n1, c)
-                });
+            for h in lm.hyp.iter_mut() {
+                if lm.n + 1 == h.n1 {
+                    h.c_before = c;
+                }
+                if lm.n == h.n1 + 1 {
+                    // coverage only grows: somewhere between the samples around t/10 it was inside [40 %, 55 %]
+                    ctx.probe(P_LANDMARK_T10);
+                    h.c1 = c;
+                    h.ok1 = Some(c >= 0.40 - slack && h.c_before <= 0.55 + slack);
+                }
+                if lm.n == h.n2 {
+                    ctx.probe(P_LANDMARK_T);
+                    h.c2 = c;
+                    h.ok2 = Some(c >= 0.995 - slack);
+                }
             }
-            if lm.n == lm.n2 {
-                ctx.probe(P_LANDMARK_T);
-                let (n2, y0, xx) = (lm.n2, lm.y0, lm.x);
-                ctx.check(14, "covers_99_5_percent_after_t", c >= 0.995 - slack, || {
-                    format!("step {:e} -> {:e}: after t = {} samples the output covered only {:.5} of the step", y0, xx, n2, c)
-                });
-                self.lm = None;
+            // a violation only if every time that may be in effect has failed one of its landmarks
+            if lm.hyp.iter().all(|h| h.ok1 == Some(false) || h.ok2 == Some(false)) {
+                let (y0, xx) = (lm.y0, lm.x);
+                let h = &lm.hyp[0];
+                let nh = lm.hyp.len();
+                if lm.hyp.iter().all(|h| h.ok1 == Some(false)) {
+                    let (n1, cb, c1) = (h.n1, h.c_before, h.c1);
+                    ctx.check(14, "covers_40_to_55_percent_after_t_over_10", false, || {
+                        format!(
+                            "step {:e} -> {:e}: around t/10 = {} samples the output covered {:.4} .. {:.4} of the step ({} time(s) may be in effect, none fits)",
+                            y0, xx, n1, cb, c1, nh
+                        )
+                    });
+                } else {
+                    let (n2, c2) = (h.n2, lm.hyp.iter().map(|h| h.c2).fold(0.0, f64::max));
+                    ctx.check(14, "covers_99_5_percent_after_t", false, || {
+                        format!(
+                            "step {:e} -> {:e}: after t = {} samples the output covered only {:.5} of the step ({} time(s) may be in effect, none fits)",
+                            y0, xx, n2, c2, nh
+                        )
+                    });
+                }
+                lm_done = true;
+            } else if lm.hyp.iter().all(|h| h.ok2.is_some()) {
+                // at least one reading passed both landmarks
+                ctx.check(14, "covers_40_to_55_percent_after_t_over_10", true, String::new);
+                ctx.check(14, "covers_99_5_percent_after_t", true, String::new);
+                lm_done = true;
             }
         }
+        if lm_done {
+            self.lm = None;
+        }
         // ---------------- C13 bounded settling; C14 fastest response
-        let n_eff = self.n_eff();
+        // the longest of the times that may be in effect decides by when the output must have settled
+        let n_eff = self.n_max();
         let window = (3.0 * n_eff) as u64 + 16;
         if self.since_change == window && !self.t_unknown && self.t_eff.is_some() {
             ctx.probe(P_SETTLE_WINDOWS);
@@ -241,9 +316,10 @@ impl Exec {
         if self.since_change >= window {
             self.settled = err.abs() <= tol + 0.005 * self.settle_start_err + 1e-7 * self.max_abs_x;
         }
-        if self.is_fast() && self.since_change == 8 && !self.t_unknown && self.t_eff.is_some() {
+        if self.all_fast() && self.since_change == 8 && !self.t_unknown && self.t_eff.is_some() {
             ctx.probe(P_FAST_SETTLE_CHECKS);
-            let lim = 1e-6 * self.max_abs_x + 1e-30;
+            // "settled": the one quantified notion of the statements, 99.5 % of the way
+            let lim = tol + 0.005 * self.settle_start_err + 1e-30;
             let t = self.t_eff;
             ctx.check(14, "fastest_response_settles_in_8_samples", err.abs() <= lim, || {
                 format!(
@@ -301,6 +377,7 @@ impl Engine for GlideEngine {
             twins_ok: true,
             t_unknown: false,
             t_eff: None,
+            t_alt: Vec::new(),
             gain_max: 1.0,
             max_abs_x: 0.0,
             hull_lo: 0.0,
@@ -342,76 +419,94 @@ impl Engine for GlideEngine {
                     ctx.probe(P_FIRST_REQUEST_FORCED);
                 }
                 real!(ex.a.set_time(t));
-                // does the statement's rule honour this call?
-                let mut ambiguous = false;
-                let honoured = match ex.t_eff {
-                    None => true, // first request since power-on: made unconditional by the far request above
-                    Some(te) => {
-                        // "the time currently in effect" can be read as the time last requested or as that time after
-                        // the documented clamps (above 10 s behaves like 10 s; below a few samples it is the fastest
-                        // response): the call is decided only if every reading gives the same answer
-                        let mut refs = vec![te as f64, (te as f64).min(10.0)];
-                        let fsd = ex.fs as f64;
-                        if (te as f64) * fsd < 4.0 {
-                            refs.extend_from_slice(&[0.0, 2.0 / fsd, 4.0 / fsd]);
-                        }
-                        // ... and the same two readings for the requested time (a request above 10 s is a request for 10 s)
-                        let mut reqs = vec![t as f64, (t as f64).min(10.0)];
-                        if (t as f64) * fsd < 4.0 {
-                            reqs.extend_from_slice(&[0.0, 2.0 / fsd, 4.0 / fsd]);
-                        }
-                        let mut votes = Vec::new();
-                        for e in refs {
-                            for r in reqs.iter() {
-                                let d = (r - e).abs();
-                                if (d - 0.05).abs() < 1e-6 * (1.0 + t.abs() as f64 + te.abs() as f64) {
-                                    ambiguous = true;
-                                }
-                                votes.push(d > 0.05);
+                // Which times may be in effect after this call?  The statement obliges the processor to honour a request
+                // that is more than 0.05 s away from the time currently in effect; a request inside that band may be
+                // ignored (the current code does) or honoured (a processor without the shortcut), so afterwards either
+                // time may be in effect.  "The time currently in effect" and "the requested time" can each be read raw or
+                // after the documented clamps (above 10 s behaves like 10 s; below a few samples it is the fastest
+                // response): a request counts as "outside the band" only if every reading says so.
+                let fsd = ex.fs as f64;
+                let outside = |te: f32| -> bool {
+                    let mut refs = vec![te as f64, (te as f64).min(10.0)];
+                    if (te as f64) * fsd < 4.0 {
+                        refs.extend_from_slice(&[0.0, 2.0 / fsd, 4.0 / fsd]);
+                    }
+                    let mut reqs = vec![t as f64, (t as f64).min(10.0)];
+                    if (t as f64) * fsd < 4.0 {
+                        reqs.extend_from_slice(&[0.0, 2.0 / fsd, 4.0 / fsd]);
+                    }
+                    for e in refs {
+                        for r in reqs.iter() {
+                            let d = (r - e).abs();
+                            if !(d > 0.05 + 1e-6 * (1.0 + t.abs() as f64 + te.abs() as f64)) {
+                                return false;
                             }
                         }
-                        if votes.iter().any(|v| *v != votes[0]) {
-                            ambiguous = true;
-                        }
-                        votes[0]
+                    }
+                    true
+                };
+                let old = ex.hyps();
+                let valid = t.is_finite() && t >= 0.0;
+                // the classical reading (requests inside the band are ignored) stays in front: the generator aims at it
+                let mut new_h: Vec<f32> = Vec::new();
+                let mut push = |v: &mut Vec<f32>, x: f32| {
+                    if !v.iter().any(|y| y.to_bits() == x.to_bits()) {
+                        v.push(x);
                     }
                 };
-                if ambiguous || !t.is_finite() || t < 0.0 {
+                let honoured = old.first().map(|te| outside(*te)).unwrap_or(true);
+                if old.is_empty() {
+                    push(&mut new_h, t);
+                } else {
+                    for te in old.iter() {
+                        if outside(*te) {
+                            push(&mut new_h, t);
+                        } else {
+                            push(&mut new_h, *te);
+                            push(&mut new_h, t);
+                        }
+                    }
+                }
+                let single = new_h.len() == 1;
+                if !valid || new_h.len() > 4 {
                     if ex.twins_ok {
                         ctx.probe(P_DEAD_BAND_AMBIGUOUS);
                         ctx.suspended += 1;
                     }
                     ex.twins_ok = false;
                     ex.t_unknown = true;
-                    // keep the tolerance sound for either outcome
-                    if t.is_finite() && t >= 0.0 {
-                        let g = ex.gain_for(t);
-                        if g > ex.gain_max {
-                            ex.gain_max = g;
-                        }
-                    } else {
-                        ex.gain_max = ex.gain_max.max(ex.gain_for(10.0));
-                    }
+                    ex.gain_max = ex.gain_max.max(ex.gain_for(if valid { t } else { 10.0 }));
+                } else if !single && ex.twins_ok {
+                    // from here on the twins cannot know which time is in effect
+                    ctx.probe(P_DEAD_BAND_AMBIGUOUS);
+                    ctx.suspended += 1;
+                    ex.twins_ok = false;
                 }
                 let far_from_target = ex.err_prev.abs() > ex.tol() * 4.0 + 1e-4 * ex.max_abs_x;
-                if honoured {
+                if valid {
                     if ex.twins_ok {
-                        // force both twins to apply the call regardless of their own dead band
+                        // every reading obliges the processor to honour the call: both twins apply it, whatever their own band
                         real!(ex.b.set_time(Exec::far(t)));
                         real!(ex.b.set_time(t));
                         let tc = if t > 10.0 { 10.0 } else { t };
                         real!(ex.c.set_time(Exec::far(tc)));
                         real!(ex.c.set_time(tc));
                     }
-                    ex.t_eff = Some(t);
+                    let changed = old != new_h;
+                    ex.t_eff = Some(new_h[0]);
+                    ex.t_alt = new_h[1..].to_vec();
                     let g = ex.gain_for(t);
                     if g > ex.gain_max {
                         ex.gain_max = g;
                     }
-                    ex.since_change = 0;
-                    ex.settle_start_err = ex.err_prev.abs();
-                    ex.lm = None;
-                    ex.settled = false;
+                    if changed {
+                        ex.since_change = 0;
+                        ex.settle_start_err = ex.err_prev.abs();
+                        ex.lm = None;
+                        ex.settled = false;
+                    }
+                }
+                if honoured && valid {
                     if far_from_target {
                         ctx.fault(F_SET_TIME_MID_GLIDE);
                         if ex.is_fast() {
@@ -432,7 +527,7 @@ impl Engine for GlideEngine {
                     if t == 0.0 && t.is_sign_negative() {
                         ctx.probe(P_NEG_ZERO_TIME);
                     }
-                } else {
+                } else if valid {
                     ctx.fault(F_SET_TIME_IN_DEAD_BAND);
                 }
                 let cls = {
@@ -459,6 +554,7 @@ impl Engine for GlideEngine {
                 ex.twins_ok = true;
                 ex.t_unknown = false;
                 ex.t_eff = None;
+                ex.t_alt.clear();
                 ex.gain_max = 1.0;
                 ex.max_abs_x = 0.0;
                 ex.hull_lo = 0.0;
@@ -580,7 +676,18 @@ fn random_run(rng: &mut Rng, prof: &Profile, sink: &mut Sink<GlideEngine>) {
 
 fn random_run_m(rng: &mut Rng, prof: &Profile, sink: &mut Sink<GlideEngine>, marathon: bool) {
     let chaos = prof.chaos;
-    let fs = if rng.chance(0.5) { *rng.pick(&fs_specials()) } else { rng.log_uniform(100.0, 48000.0) as f32 };
+    // the documented range goes up to 192 kHz; most runs stay at or below 48 kHz (shorter glides in samples)
+    let fs = if rng.chance(if chaos { 0.5 } else { 0.2 }) {
+        if rng.chance(0.5) {
+            *rng.pick(&[64000.0f32, 88200.0, 96000.0, 176400.0, 192000.0, 191999.0])
+        } else {
+            rng.log_uniform(48000.0, 192000.0) as f32
+        }
+    } else if rng.chance(0.5) {
+        *rng.pick(&fs_specials())
+    } else {
+        rng.log_uniform(100.0, 48000.0) as f32
+    };
     let long = rng.chance(if prof.tier == Tier::Thorough { 0.08 } else { 0.03 });
     let n_target = if long { rng.log_uniform(2e4, 4.8e5) } else { rng.log_uniform(4.0, 4000.0) };
     let budget: u64 = if long { (n_target * 6.0) as u64 } else { ((n_target * 25.0) as u64).clamp(400, 80_000) };
